@@ -7,8 +7,11 @@ TEXT = ("TLC explores every interleaving of the ToTables fan-out model (main wit
         "column workers, arbitrary map-iteration order) and proves RaceFree, BarrierRespected, SemBound, Deterministic, deadlock "
         "freedom and termination under weak fairness; model schedules are imposed on the real goroutines through the verif hook "
         "(also in a -race build, where overlapping pairs are made truly concurrent) with byte-identical text/CSV required; hook "
-        "traces of free runs at GOMAXPROCS 1/2/3/4/16 are validated against the spec; the benchstat binary is compared byte for "
-        "byte across GOMAXPROCS and repetitions, and cell content across permutations of result lines.")
+        "traces of free runs at GOMAXPROCS 1/2/3/4/16 are validated against the spec (also runs with 50-100 cell workers under a "
+        "saturated fan-out bound); un-imposed runs on big shapes (up to ~600 cells, 2-300 results per cell) are compared across "
+        "GOMAXPROCS in a plain and a -race build; the benchstat binary is compared byte for byte across GOMAXPROCS and "
+        "repetitions, and cell content across permutations of result lines, on small inputs and on large ones (> 1024 distinct "
+        "benchmarks in several passes, > 1024 runs with their own configuration, grids with more cells than 2*GOMAXPROCS).")
 NOTE = ("Trusted: TLC, the Go race detector as the run-time judge of data races on the schedules exercised, the hook placement "
         "(commit 9077d19). Imposed schedules need 2*GOMAXPROCS >= number of workers of a phase; smaller semaphores are covered by "
         "the model and by trace validation only.")
@@ -19,7 +22,11 @@ RULE = ("(M) exhaustive TLC on TablesPar.tla (2 tables x 2x2 cells sparse, L=2; 
         "negative control without the first barrier must violate BarrierRespected; (G) simulated behaviours (free and 'greedy' = "
         "maximal overlap) imposed on the real Builder.ToTables via the hook gate, output compared byte for byte with an un-hooked "
         "sequential run, same schedules in a -race build; (T) hook traces of un-imposed runs validated by TablesPar_trace; "
-        "benchstat binary repeat/permutation runs. distinct_nontrivial = distinct imposed schedules in which at least two workers "
+        "(own 2x3x3 recordings, cmd/benchstat's golden tests, recordings with 50-100 cell workers at GOMAXPROCS 1-3 by "
+        "TablesParObs_trace/TablesParDyn_trace); un-imposed runs on 10 (60) big shapes of 1-3 units x 10-39 rows x 2-5 columns "
+        "at GOMAXPROCS 2,16,3,4,8,1 vs 1, plain and -race; benchstat binary repeat/permutation runs on 6 (60) small and 8 (24) "
+        "large inputs (names: 1030-1600 benchmarks x 3-4 passes x 2 files; sweep: 5 benchmarks x 1030-1400 runs with run/commit "
+        "keys; grid: 30-45 benchmarks x 2 files x 2 units with 3-210 runs per cell; units: 30-45 benchmarks with 1..70 runs and 90 prefixed custom units). distinct_nontrivial = distinct imposed schedules in which at least two workers "
         "overlap.")
 
 
@@ -85,6 +92,57 @@ def inproc(ctx, q):
     ctx.cov["evaluations"] += len(res)
     if bad:
         ctx.report(bad[:5], "in-process repetition of benchstat()")
+
+
+def stress(ctx, q, race_vh):
+    n = 10 if q else 60
+    for label, vh, cnt in (("plain", ctx.vh, n), ("race", race_vh, 3 if q else 10)):
+        rp = os.path.join(ctx.work, "stress-%s.json" % label)
+        def once():
+            old = ctx.vh
+            ctx.vh = vh
+            try:
+                return ctx.harness(["tablespar", "stress", cnt, rp], check=False, env={"GORACE": "halt_on_error=0 exitcode=66"}, timeout=2400)
+            finally:
+                ctx.vh = old
+        p = once()
+        if "DATA RACE" in p.stderr:
+            m = re.search(r"WARNING: DATA RACE.*?(?=\n==================|\Z)", p.stderr, re.S)
+            p2 = once()
+            if "DATA RACE" not in p2.stderr:
+                raise vlib.Infra("a data race report (big shapes) did not reproduce on a second run")
+            ctx.report([{"signature": "data-race", "detail": (m.group(0) if m else p.stderr)[:3000], "family": "tablespar-race"}],
+                       "race detector on un-imposed runs with more cell workers than the fan-out bound")
+            continue
+        if p.returncode != 0 or not os.path.exists(rp):
+            if "panic:" in p.stderr or "fatal error:" in p.stderr:
+                m = re.search(r"(panic: .*|fatal error: .*)", p.stderr)
+                p2 = once()
+                if p2.returncode == 0:
+                    raise vlib.Infra("a crash on big shapes did not recur: " + p.stderr[-600:])
+                ctx.report([{"signature": "crash-on-big-shapes", "family": "tablespar-stress", "detail": m.group(1) + " | " + p.stderr[-1500:]}],
+                           "un-imposed runs on big shapes")
+                continue
+            raise vlib.Infra("stress run (%s) failed rc=%d: %s" % (label, p.returncode, p.stderr[-1500:]))
+        rep = json.load(open(rp))
+        ctx.cov["stress_runs_" + label] = rep["runs"]
+        ctx.cov["stress_max_cells"] = max(ctx.cov.get("stress_max_cells", 0), rep["max_cells"])
+        ctx.cov["evaluations"] += rep["runs"]
+        if rep["failures"]:
+            once()
+            rep2 = json.load(open(rp))
+            if not rep2["failures"]:
+                raise vlib.Infra("a GOMAXPROCS-dependent output (big shapes) did not reproduce: %s" % rep["failures"][:1])
+            ctx.report([{"signature": "output-depends-on-gomaxprocs", "detail": f, "family": "tablespar-stress"} for f in rep["failures"][:5]],
+                       "un-imposed runs on big shapes")
+
+
+def repeat_sig(f):
+    if "did not terminate" in f:
+        return "benchstat-does-not-terminate"
+    if "benchstat failed" in f:
+        return "benchstat-fails"
+    return "binary-output-differs"
 
 
 def run(ctx):
@@ -169,6 +227,9 @@ def run(ctx):
             ctx.report([dict(v, family="tablespar") for v in bad[:5]], "imposed schedules in the -race build")
     ctx.cov["race_build_schedules"] = len(sub)
     ctx.cov["traces_validated_against_impl"] += len(sub)
+    # big shapes, un-imposed (far more cell workers than 2*GOMAXPROCS, cells of very different weight, large residue
+    # sets): text/CSV at GOMAXPROCS 2,16,3,4,8,1 against the run at GOMAXPROCS 1, in the plain and in the -race build
+    stress(ctx, q, race_vh)
     # (T) two layers.  Observer (verdict): what was observed must be free of conflicting concurrent
     # accesses and of reads before the final write (TablesParObs_trace: any event order is accepted,
     # only the safety invariants of C15 are judged).  Design conformance (no verdict): the same
@@ -204,9 +265,14 @@ def run(ctx):
         with open(path, "a") as fh:
             fh.write(json.dumps({"ev": "reset", "limit": 0, "nt": 1, "cells": [], "cols": [], "base": [1]}) + "\n")
         return path
+    def record_big(path):
+        # 50-100 cell workers per run at GOMAXPROCS 1, 2, 3: the fan-out bound is saturated throughout
+        ctx.harness(["tablespar", "recordbig", path, 6 if q else 40])
+        return path
     drift = []
     for name, rec, strict in (("own", record_own, ("TablesPar_trace.tla", "TablesPar_trace.cfg")),
-                              ("repo-tests", record_repo_tests, ("TablesParDyn_trace.tla", "TablesParDyn_trace.cfg"))):
+                              ("repo-tests", record_repo_tests, ("TablesParDyn_trace.tla", "TablesParDyn_trace.cfg")),
+                              ("big", record_big, ("TablesParDyn_trace.tla", "TablesParDyn_trace.cfg"))):
         tp = rec(os.path.join(ctx.work, "tp-trace-%s.ndjson" % name))
         evs = ctx.read_ndjson(tp)
         nruns = sum(1 for e in evs if e["ev"] == "reset") - 1
@@ -254,8 +320,23 @@ def run(ctx):
         rep2 = json.load(open(rp))
         if not rep2["failures"]:
             raise vlib.Infra("binary repeat failure did not reproduce: %s" % rep["failures"][:2])
-        ctx.report([{"signature": "benchstat-does-not-terminate" if "did not terminate" in f else "binary-output-differs", "detail": f, "family": "tablespar-repeat"}
+        ctx.report([{"signature": repeat_sig(f), "detail": f, "family": "tablespar-repeat"}
                     for f in rep["failures"][:5]], "benchstat binary repeat runs")
+    # the same on LARGE inputs: > 1024 distinct benchmarks in several passes, > 1024 runs of a few benchmarks with a
+    # configuration key of their own, grids with more cells than 2*GOMAXPROCS and large residue sets
+    nbig = 8 if q else 24
+    ctx.harness(["tablespar", "repeatbig", bins["benchstat"], nbig, rp], timeout=2400)
+    rep = json.load(open(rp))
+    ctx.cov["binary_runs_big_inputs"] = rep["runs"]
+    ctx.cov["big_input_lines_max"] = rep["lines"]
+    ctx.cov["evaluations"] += rep["runs"]
+    if rep["failures"]:
+        ctx.harness(["tablespar", "repeatbig", bins["benchstat"], nbig, rp], timeout=2400)
+        rep2 = json.load(open(rp))
+        if not rep2["failures"]:
+            raise vlib.Infra("binary repeat failure on a big input did not reproduce: %s" % rep["failures"][:2])
+        ctx.report([{"signature": repeat_sig(f), "detail": f, "family": "tablespar-repeat"}
+                    for f in rep["failures"][:5]], "benchstat binary repeat runs on big inputs")
     # in-process repetition: benchstat() called several times in one process with different flags
     inproc(ctx, q)
     ctx.cov["distinct_nontrivial"] = nontriv
